@@ -588,7 +588,14 @@ class NetworkXPropertyGraph(ABCPropertyGraph, NetworkXMixin):
         assert node_id is not None
         assert label is not None
 
-        if self.node_exists(node_id=node_id, label=label):
+        # a node id is unique within its graph whatever the class of the node: _find_node looks nodes
+        # up by id alone, so the check cannot be restricted to nodes of the same class
+        graph_nodes = list(nxq.search_nodes(self.storage.get_graph(self.graph_id),
+                                            {'and': [
+                                                {'eq': [ABCPropertyGraph.GRAPH_ID, self.graph_id]},
+                                                {'eq': [ABCPropertyGraph.NODE_ID, node_id]}
+                                            ]}))
+        if len(graph_nodes) > 0:
             raise PropertyGraphQueryException(node_id=node_id, graph_id=self.graph_id,
                                               msg="Unable to add node - a node with this ID exists")
 
